@@ -5,7 +5,7 @@ d=$(mktemp -d /tmp/sr_XXXXXX)
 rsync -a --exclude _build --exclude .git /repo/ $d/
 ( cd $d && patch -p1 -s < /verif/seeded/$name/patch.diff ) || { echo "patch failed"; rm -rf $d; exit 2; }
 for id in "$@"; do
-  out=$(cd /verif && VERIF_REPO=$d ./check $id 2>&1); rc=$?
+  out=$(cd /verif && VERIF_REPO=$d VERIF_EVIDENCE_DIR=/verif/build/seed_evidence ./check $id 2>&1); rc=$?
   echo "[$name] $id exit=$rc :: $(echo "$out" | grep -E 'VIOLATION|KNOWN' | head -2 | cut -c1-260)"
   echo "$out" | grep -A1 VIOLATION | grep -v VIOLATION | head -1 | cut -c1-300
 done
